@@ -103,15 +103,19 @@ FinalizeFrames(s) ==
      ELSE <<>>
 
 (* ---------------- compute_full (own algorithm, not streaming) ----------- *)
-FullImpl(n, u) ==
-  IF n < MinLen(L) THEN <<>> ELSE
-  LET pl == PadLeft(L, S, st)
-      nf == Max(0, (n + (S \div 2)) \div S)
-      total == (nf - 1) * S - pl + L
+\* c: configuration record; also valid for a shift longer than the frame (gapped frames), where the kaldi
+\* left padding is negative: frames then start past sample 0
+FullImplC(c, n, u) ==
+  IF n < MinLen(c.L) THEN <<>> ELSE
+  LET pl == PadLeft(c.L, c.S, c.st)
+      nf == Max(0, (n + (c.S \div 2)) \div c.S)
+      total == (nf - 1) * c.S - pl + c.L
       pr == Max(0, total - n)
       sig == [i \in 1..n |-> Tok(u, i - 1)]
-      padded == IF pl > 0 \/ pr > 0 THEN PadSym(sig, pl, pr) ELSE sig
-  IN [k \in 1..nf |-> PySlice(padded, (k - 1) * S, (k - 1) * S + L)]
+      padded0 == IF pl > 0 \/ pr > 0 THEN PadSym(sig, Max(pl, 0), pr) ELSE sig
+      padded == IF pl < 0 THEN PyFrom(padded0, -pl) ELSE padded0
+  IN [k \in 1..nf |-> PySlice(padded, (k - 1) * c.S, (k - 1) * c.S + c.L)]
+FullImpl(n, u) == FullImplC(cfg, n, u)
 
 (* ---------------- frame_by_frame_calculation ---------------------------- *)
 \* feeds tokens pos..n-1 of utterance u in chunks of cs, then finalizes
